@@ -116,6 +116,12 @@ def monitor(c):
     if c["stdout"] and not has_full(runs(c["out_file"], "out"), last, so):
         return ("the stdout: file lacks bytes of the last attempt: runs %r of %d" % (runs(c["out_file"], "out"), so),
                 dict(base, **{"class": classify(c, "stdout-file")}))
+    if c.get("same"):
+        # stdout: and stderr: name one file (two descriptors): it must hold every stdout and every stderr byte
+        if not has_full(runs(c["out_file"], "err"), last, se):
+            return ("stdout: and stderr: name the same file and it lacks stderr bytes of the last attempt: stdout runs %r of %d, stderr runs %r of %d"
+                    % (runs(c["out_file"], "out"), so, runs(c["out_file"], "err"), se), dict(base, **{"class": classify(c, "same-file")}))
+        return None
     if c["stderr"] and not has_full(runs(c["err_file"], "err"), last, se):
         return ("the stderr: file lacks bytes of the last attempt: runs %r of %d" % (runs(c["err_file"], "err"), se),
                 dict(base, **{"class": classify(c, "stderr-file")}))
@@ -248,8 +254,9 @@ def compare(c, pred):
 
 def model_check(ctx, cases):
     """Returns list of (case, what)."""
-    todo = [c for c in cases if not c.get("err") and not exec_limit(c)]
+    todo = [c for c in cases if not c.get("err") and not exec_limit(c) and not c.get("same")]
     ctx.cov["not_compared_exec_limit"] = sum(1 for c in cases if exec_limit(c))
+    ctx.cov["not_modelled_same_file"] = sum(1 for c in cases if c.get("same"))   # judged by the monitor only
     preds = eval_model(ctx, todo)
     bad = []
     for c, p in zip(todo, preds):
@@ -260,7 +267,7 @@ def model_check(ctx, cases):
 
 
 # ---- shrinking -------------------------------------------------------------------------------------------------
-IN_KEYS = ("stream", "stdout", "stderr", "output", "script", "retries", "fails", "emit", "size", "blk", "slowdone", "done", "handler")
+IN_KEYS = ("stream", "stdout", "stderr", "output", "script", "retries", "fails", "emit", "size", "blk", "slowdone", "done", "handler", "same")
 
 
 def inputs(c):
@@ -288,6 +295,8 @@ def candidates(c):
         out.append(dict(b, done=0))
     if b.get("slowdone"):
         out.append(dict(b, slowdone=0))
+    if b.get("same") == 2:
+        out.append(dict(b, same=1))
     return out
 
 
@@ -343,6 +352,7 @@ def run(ctx, replay_cases=None):
     for c in cases:
         c.setdefault("done", 0)
         c.setdefault("handler", "")
+        c.setdefault("same", 0)
     bad = model_check(ctx, cases)
     judge(ctx, tool, cases)
     for c, what in bad:
@@ -375,6 +385,7 @@ def run(ctx, replay_cases=None):
         "after a write error on a closed file the model drops the rest of the stream (what exec.Cmd does next is not modelled)",
     ]
     ctx.assumptions = ["C12_complete: none beyond at least one attempt (every configuration, number of retries, chunking, size)",
+                       "`stdout:` and `stderr:` naming one file (two descriptors on one path) is outside the Log model: judged by the monitor only",
                        "after a capture beyond the execve limit (131067 bytes) later attempts of the same step cannot be started (E2BIG) and "
                        "print nothing: those cases are judged as such and not compared with the model"]
     if ctx.tier == "thorough":
@@ -401,8 +412,8 @@ def replay(ctx, path):
         cases.append(fi.get("case", fi))
     if isinstance(body.get("case"), dict):
         cases.append(body["case"])
-    cases = [inputs(dict({"done": 0, "handler": ""}, **c)) for c in cases
-             if isinstance(c, dict) and all(k in c for k in IN_KEYS if k not in ("done", "handler"))]
+    cases = [inputs(dict({"done": 0, "handler": "", "same": 0}, **c)) for c in cases
+             if isinstance(c, dict) and all(k in c for k in IN_KEYS if k not in ("done", "handler", "same"))]
     tool, out, _ = vlib.go_build("logs", ctx.scratch)
     if tool is None:
         ctx.fail("correspondence", "harness does not build against /repo", {"log": out[-2000:]})
